@@ -19,7 +19,7 @@ RULE = (
     "construction order) x objective kind {diagonal QP, coupled QP as scalar formula / QuadraticForm / x.dot(Q@x), "
     "sum exp(a u)-a u + QP, sum u^4 + QP, sum cosh} shifted to a manufactured unconstrained optimum x* x active "
     "set {none, inactive / weakly active / strictly active inequality, equality through x*, equality moving the "
-    "optimum, inequality+equality} x bounds {none, inactive, clamping} x {min f, max -f} x method {auto, SLSQP, "
+    "optimum, inequality+equality, a row over a strict subset of the variables, several vector-form rows with equal sense and right-hand side, a matrix-vector row block} x bounds {none, inactive, clamping} x {min f, max -f} x method {auto, SLSQP, "
     "trust-constr, L-BFGS-B when unconstrained}: the full product.  transitions = solves on the real code (one "
     "captured optyx solve + one raw scipy.optimize.minimize call with hand-written reference callables, same "
     "method, bounds, constraints and the captured x0); evaluations = (1) every captured callable (fun, jac, hess, "
@@ -33,7 +33,8 @@ ASSUMPTIONS = [
 ]
 NSH = 48
 
-NAMES = {1: ["x"], 2: ["x10", "x9"], 3: ["b", "a", "c"]}     # construction order
+# construction order; natural order (c, x2, x10) differs from lexicographic order (c, x10, x2) and from construction order
+NAMES = {1: ["x"], 2: ["x10", "x9"], 3: ["x10", "x2", "c"]}
 XSTAR = {1: [1.5], 2: [0.5, -1.0], 3: [1.0, -0.5, 2.0]}
 AV = {1: [1.0], 2: [1.0, 2.0], 3: [1.0, -1.0, 2.0]}
 QS = {
@@ -105,6 +106,21 @@ def constraint_sets(vs, xs, av):
         "eq-moving": (("cmp", "==", lin, c(at - 0.5)),),
         "ineq+eq": (("cmp", "<=", c(at - 1.0), lin), ("cmp", "==", sub(vs[0], c(xs[0] + 0.25)), c(0))),
         "nonlinear-ineq": (("cmp", "<=", sqn, c(r2 * 0.64 + 0.01)),),
+        **({"subset-row": (("cmp", ">=", add(vs[0], mul(c(3.0), vs[1])), c(xs[0] + 3.0 * xs[1] + 0.5)),)} if len(vs) >= 3 else {}),
+    }
+
+
+def vector_constraint_sets(V, xs):
+    """rows in VECTOR form over one VectorVariable: several rows with the same sense and right-hand side that differ
+    only in their coefficient data, and a matrix-vector row block"""
+    a1, a2 = (1.0, 0.0, 1.0), (0.0, -1.0, 1.0)
+    b = max(sum(a * x for a, x in zip(a1, xs)), sum(a * x for a, x in zip(a2, xs))) + 0.5
+    A = ("arr2", (tuple(-t for t in a1), tuple(-t for t in a2)))
+    return {
+        "two-LC-rows-same-rhs": (("cmp", ">=", ("mm", ("arr", a1), V), c(b)), ("cmp", ">=", ("mm", ("arr", a2), V), c(b))),
+        "A@w<=rhs": (("cmp", "<=", ("mv", A, V), ("arr", (-b, -b))),),
+        "two-dot-rows-same-rhs": (("cmp", "<=", ("dot", V, ("arr", tuple(-t for t in a1))), c(-b)),
+                                  ("cmp", "<=", ("dot", V, ("arr", tuple(-t for t in a2))), c(-b))),
     }
 
 
@@ -134,8 +150,10 @@ def all_cases(tier):
                     idx += 1
     vobjs, vnames = vector_objectives()
     vs = [("idx", ("vvar", "w", 3), i) for i in range(3)]
+    vcons = dict(constraint_sets(vs, XSTAR[3], AV[3]))
+    vcons.update(vector_constraint_sets(("vvar", "w", 3), XSTAR[3]))
     for (on, obj), (cn, cons), (bn, bnds) in itertools.product(
-            vobjs.items(), constraint_sets(vs, XSTAR[3], AV[3]).items(),
+            vobjs.items(), vcons.items(),
             {"none": (), "box": (("w", (("lb", -4.0), ("ub", 4.0))),)}.items()):
         for sense in ("min", "max"):
             o = obj if sense == "min" else ("un", "neg", obj)
